@@ -34,7 +34,7 @@ fn c19_8a_mapping_clamps_input() {
     kani::cover!(lo < hi && x > hi);
 }
 
-// @ob id=C19.8b,C17.4b strength=bounded tier=thorough timeout=3600 bound="lo, hi, x restricted to 4 significant mantissa bits, |.| <= 1e6" fn=value.rs::Mapping::map
+// @ob id=C19.8b,C17.4b strength=bounded tier=quick bound="lo, hi, x restricted to 4 significant mantissa bits, |.| <= 1e6" fn=value.rs::Mapping::map
 // @req as C19.8a with reduced-precision range bounds and input
 // @ens inputs at or beyond the range end give an amount of exactly 1 (normal and inverted ranges); inputs strictly inside give an amount strictly between... at least within [0,1]
 #[kani::proof]
